@@ -68,6 +68,21 @@ class Tripwire:
         self.others = []      # entropy that is not numpy's global generator (or re-seeds it): a C14 matter
         self.blind = []       # draws from numpy's global generator the harness cannot script: luck is observed
         self.value = 0.5
+        self.through_wrappers = 0     # 32-bit words of the global generator consumed through the wrappers below
+
+    @staticmethod
+    def _pos():
+        st = np.random.get_state(legacy=True)
+        return int(st[2]), int(st[1][0]), int(st[1][1])
+
+    def _words(self, p0, p1):
+        """32-bit words the global Mersenne Twister produced between two _pos() readings (fewer than 624)"""
+        if p0 == p1:
+            return 0
+        n = p1[0] - p0[0]
+        if (p0[1], p0[2]) != (p1[1], p1[2]):       # the state block was regenerated in between
+            n += 624
+        return n
 
     @contextlib.contextmanager
     def scripted(self, value):
@@ -75,14 +90,18 @@ class Tripwire:
         self.others = []
         self.blind = []
         self.value = value
+        self.through_wrappers = 0
         saved = {}
         saved_py = {}
+        pos0 = self._pos()
 
         def mk_uniform(name, orig):
             def fake(*args, **kw):
                 size = (args if args else None) if name == "rand" else (args[0] if args else kw.get("size"))
                 if self.value is None:          # record mode: the real generator draws, the value is only logged
+                    q0 = self._pos()
                     x = orig(*args, **kw)
+                    self.through_wrappers += self._words(q0, self._pos())
                     self.draws.append(float(np.asarray(x).reshape(-1)[0]))
                     return x
                 self.draws.append(self.value)
@@ -94,6 +113,7 @@ class Tripwire:
         def mk_seed(orig):
             def w(*a, **k):
                 self.others.append("numpy.random.seed")
+                self.through_wrappers += 100000        # the position is meaningless after a re-seed
                 return orig(*a, **k)
             return w
 
@@ -102,7 +122,11 @@ class Tripwire:
                 if name == "uniform" and not a and not {"low", "high"} & set(k):
                     return saved_fake["random_sample"](k.get("size"))
                 self.blind.append("numpy.random." + name)
-                return orig(*a, **k)
+                q0 = self._pos()
+                try:
+                    return orig(*a, **k)
+                finally:
+                    self.through_wrappers += self._words(q0, self._pos())
             return w
 
         def mkpy(name, orig):
@@ -133,6 +157,12 @@ class Tripwire:
                 setattr(np.random, n, f)
             for n, f in saved_py.items():
                 setattr(_pyrandom, n, f)
+            # the global generator moved although nothing went through the wrappers (or moved further than they
+            # account for): the code under test holds its own reference to one of numpy's functions
+            # (`from numpy.random import rand`), the draw was real and not the scripted one - blind mode
+            if self.through_wrappers < 100000 and self._words(pos0, self._pos()) > self.through_wrappers:
+                self.blind.append("numpy.random.<reference taken before the harness looked>")
+                self.draws = []
 
 
 class Recorder:
